@@ -502,8 +502,13 @@ func TestVerifC11Mux(t *testing.T) {
 // shows up as a response that is not `serve` of the generation installed last.
 
 type c11hOp struct {
-	Op string `json:"op"` // "reload" (I = index into specs) | "req" (I = index into reqs)
-	I  int    `json:"i"`
+	// "reload" (I = index into specs) | "req" (I = index into reqs) |
+	// "set" (the current mux mapper now returns a handler tagged Tag for backend Name: a pipeline was
+	// created / updated — the HTTPServer is NOT reloaded for that) | "del" (it returns nil,false for Name)
+	Op   string `json:"op"`
+	I    int    `json:"i"`
+	Name string `json:"name,omitempty"`
+	Tag  string `json:"tag,omitempty"`
 }
 
 type c11hInput struct {
@@ -529,7 +534,6 @@ func c11hExec(raw json.RawMessage) interface{} {
 		return c11hObs{Err: "bad-input"}
 	}
 	yamls := make([]string, len(in.Specs))
-	mappers := make([]*c11mMapper, len(in.Specs))
 	for i, g := range in.Specs {
 		y, err := c11mYAML(g)
 		if err != nil {
@@ -538,7 +542,7 @@ func c11hExec(raw json.RawMessage) interface{} {
 		if _, err := supervisor.NewSpec(y); err != nil {
 			return c11hObs{Err: "bad-spec", Note: err.Error()}
 		}
-		yamls[i], mappers[i] = y, c11mNewMapper(g)
+		yamls[i] = y
 	}
 	obs := c11hObs{Oracle: []c11mOracle{}, Out: []c11mOutcome{}}
 	for _, q := range in.Reqs {
@@ -553,8 +557,17 @@ func c11hExec(raw json.RawMessage) interface{} {
 	m := newMux(httpstat.New(), httpstat.NewTopN(10), &c11mMapper{handlers: map[string]*c11mHandler{}})
 	defer m.close()
 	loaded := false
+	var curMapper *c11mMapper
 	for _, op := range in.Hist {
 		switch op.Op {
+		case "set":
+			if curMapper != nil && op.Name != "" {
+				curMapper.handlers[op.Name] = &c11mHandler{id: op.Tag}
+			}
+		case "del":
+			if curMapper != nil {
+				delete(curMapper.handlers, op.Name)
+			}
 		case "reload":
 			if op.I < 0 || op.I >= len(yamls) {
 				continue
@@ -563,7 +576,9 @@ func c11hExec(raw json.RawMessage) interface{} {
 			if err != nil {
 				return c11hObs{Err: "bad-spec"}
 			}
-			m.reload(ss, mappers[op.I])
+			// a fresh mapper object per reload (set / del below mutate the current one only)
+			curMapper = c11mNewMapper(in.Specs[op.I])
+			m.reload(ss, curMapper)
 			loaded = true
 		case "req":
 			// The runtime always reloads once before the server accepts connections; a request
@@ -710,8 +725,26 @@ func c11hGen(r *verifh.Rand, i int) interface{} {
 	in.Hist = append(in.Hist, c11hOp{Op: "reload", I: 0})
 	burst()
 	steps := r.Range(2, 6)
+	cur := 0
 	for k := 0; k < steps; k++ {
-		in.Hist = append(in.Hist, c11hOp{Op: "reload", I: r.Intn(len(in.Specs))})
+		// 2 of 5 steps change what the mux mapper answers WITHOUT reloading the server (a pipeline was
+		// updated / deleted / re-created): the same keys are requested before and after
+		if names := in.Specs[cur].Backends; r.Bool(2, 5) && len(names) > 0 {
+			name := names[r.Intn(len(names))]
+			if r.Bool(1, 3) {
+				in.Hist = append(in.Hist, c11hOp{Op: "del", Name: name})
+				if r.Bool(1, 2) { // … and re-created after some traffic
+					burst()
+					in.Hist = append(in.Hist, c11hOp{Op: "set", Name: name, Tag: fmt.Sprintf("G%d:%s", k+1, name)})
+				}
+			} else {
+				in.Hist = append(in.Hist, c11hOp{Op: "set", Name: name, Tag: fmt.Sprintf("G%d:%s", k+1, name)})
+			}
+			burst()
+			continue
+		}
+		cur = r.Intn(len(in.Specs))
+		in.Hist = append(in.Hist, c11hOp{Op: "reload", I: cur})
 		burst()
 	}
 	return in
